@@ -17,7 +17,11 @@ OWNERS = {
 def decorate(b, rng, claims=True, finality=False, storefaults=False, l2reorgs=False):
     """add what the model abstracts away: claims per block, position of the finalized pointer, storage faults"""
     steps = []
-    fin = rng.choice([3, 4, 5]) if finality else 5
+    cfg = dict(b["cfg"])
+    if finality:
+        # how the 5 L1 info leaves are spread over L1 blocks: several updates of the info tree can share a block
+        cfg["l1shape"] = rng.choice([[1, 2, 3, 4, 5], [1, 2, 3, 4, 5], [1, 1, 2, 2, 3], [1, 2, 2, 2, 3], [1, 1, 1, 2, 2], [1, 2, 3, 3, 4]])
+    fin = rng.choice([2, 3, 4, 5]) if finality else 5
     if finality:
         steps.append(dict(a="finalize", fin=fin))
     for s in b["steps"]:
@@ -39,7 +43,7 @@ def decorate(b, rng, claims=True, finality=False, storefaults=False, l2reorgs=Fa
         if l2reorgs and s["a"] == "agmove" and s.get("st") == "InError" and rng.random() < 0.5:
             # the L2 tip is reorged while the last certificate is in error (the driver skips it if a live certificate covers it)
             steps.append(dict(a="l2reorg", nb=rng.choice([1, 2]), nc=rng.choice([0, 1])))
-    return dict(cfg=b["cfg"], steps=steps)
+    return dict(cfg=cfg, steps=steps)
 
 
 def aggsender_check(prop, model_cfgs, gen_cfgs, quick_n, thorough_n, invs, claims=True, finality=False, storefaults=False, assumptions=(),
